@@ -1,5 +1,6 @@
 import IdenaModel.Model.BlockBuild
 import IdenaModel.Drivers.Util
+import IdenaModel.Model.ProposeHeader
 /-! Driver for channel C02.  A case is a table of per-candidate verdicts recorded from the real code
 (`cand v a fee tips gas`), `filter` asks for the kept indices and totals, `process` for the strict verdict on the kept list.
 The "state" of the executable instance is irrelevant (verdicts are recorded per candidate position), so `S := Unit`
@@ -58,6 +59,20 @@ def step (st : St) (line : String) : St × String :=
   -- extracted fact about ProposeBlock (go/ast, from /repo's current blockchain.go): after filterTxs, when a candidate
   -- was dropped, the kept list is re-applied to a clean check state with processTxs (model: `proposeD`, theorem
   -- `propose_accepted`; without it `propose_as_found_rejected` applies)
+  -- `clock <head time> <proposer's clock> <validator's clock>`: the time `ProposeBlock` puts into the header and the verdict
+  -- of a correct validator on the same head (M-ProposeHeader + M-BlockValidate; theorem `honest_header_accepted_iff`)
+  | ["clock", pt, np, nv] =>
+    match pt.toNat?, np.toNat?, nv.toNat? with
+    | some pt, some np, some nv =>
+      let c := IdenaModel.BlockValidate.clockCtx pt nv
+      let ch : IdenaModel.BlockValidate.Choice := ⟨0, 0, 0, 0, 0, 0, np⟩
+      let h := IdenaModel.BlockValidate.proposeHeader c ch (0, 0, 0, 0, 0)
+      let v := match IdenaModel.BlockValidate.validateBlock c h 0 with
+        | .ok => "acc"
+        | .err (some .time) => "rej-time"
+        | .err _ => "rej-other"
+      (st, s!"time={h .time} {v}")
+    | _, _, _ => (st, "bad-op")
   | ["fact", "propose-rederives-on-clean-state", v] => (st, if v = "yes" then "matches-proposeD" else "matches-proposeDAsFound:VIOLATED")
   | _ => (st, "bad-op")
 
